@@ -77,10 +77,60 @@ func fidelityMain(args []string) int {
 }
 
 func mapPath(root, p string) string {
-	if strings.HasPrefix(p, "/u/") {
+	if strings.HasPrefix(p, "/u/") || strings.HasPrefix(p, cliFifo+"/") {
 		return root + p
 	}
 	return p
+}
+
+// realFifos creates a named pipe for every /fifo/x among the arguments whose
+// source /u/x exists, with a feeder that writes the file into it once a
+// reader shows up. The returned function releases feeders that never got a
+// reader, waits for them and removes the pipes.
+func realFifos(root string, argv []string) func() {
+	var paths []string
+	done := make(chan struct{}, len(argv))
+	n := 0
+	for _, a := range argv {
+		if !strings.HasPrefix(a, cliFifo+"/") {
+			continue
+		}
+		data, err := realos.ReadFile(root + "/u" + strings.TrimPrefix(a, cliFifo))
+		if err != nil {
+			continue
+		}
+		p := root + a
+		realos.MkdirAll(filepath.Dir(p), 0755)
+		realos.Remove(p)
+		if syscall.Mkfifo(p, 0600) != nil {
+			continue
+		}
+		paths = append(paths, p)
+		n++
+		go func() {
+			defer func() { done <- struct{}{} }()
+			f, err := realos.OpenFile(p, realos.O_WRONLY, 0)
+			if err != nil {
+				return
+			}
+			f.Write(data)
+			f.Close()
+		}()
+	}
+	return func() {
+		for _, p := range paths {
+			// a feeder still waiting for a reader is released by this open
+			if f, err := realos.OpenFile(p, realos.O_RDONLY|syscall.O_NONBLOCK, 0); err == nil {
+				defer f.Close()
+			}
+		}
+		for ; n > 0; n-- {
+			<-done
+		}
+		for _, p := range paths {
+			realos.Remove(p)
+		}
+	}
 }
 
 func fidelityReal(sc *cliScenario, x *cliExec, root, bin string) (bool, string, int) {
@@ -136,7 +186,9 @@ func fidelityReal(sc *cliScenario, x *cliExec, root, bin string) (bool, string, 
 			}
 			var out bytes.Buffer
 			cmd.Stdout = &out
+			release := realFifos(root, st.Run.Argv)
 			err := cmd.Run()
+			release()
 			status := 0
 			if ee, ok := err.(*exec.ExitError); ok {
 				status = ee.ExitCode()
